@@ -82,6 +82,10 @@ public:
 	mutable long count = 0;
 };
 
+// the caller's own event object of the direct dispatch in progress (null otherwise)
+int * g_liveKey = nullptr;
+struct LiveKey { int * old; explicit LiveKey(int * k) : old(g_liveKey) { g_liveKey = k; } ~LiveKey() { g_liveKey = old; } };
+
 struct IF
 {
 	virtual ~IF() {}
@@ -146,11 +150,13 @@ struct Homo : IF
 		lh.push_back(how & 1 ? d.prependListener(key, cb) : d.appendListener(key, cb));
 	}
 	bool removeListener(int key, int h) override { return d.removeListener(key, lh[(size_t)h]); }
+	// direct dispatch hands the library an lvalue of exactly the Event type; while it runs, filters with an odd id overwrite that
+	// very object (g_liveKey): the event to dispatch was determined by the call's arguments, so this must not re-route anything
 	void doDispatch(int key, Args & c, std::true_type, bool queued) {
 		if(queued) { d.enqueue(key, c.a, c.s); d.process(); }
-		else d.dispatch(key, c.a, c.s);
+		else { LiveKey lk(&key); d.dispatch(key, c.a, c.s); }
 	}
-	void doDispatch(int key, Args & c, std::false_type, bool) { d.dispatch(key, c.a, c.s); }
+	void doDispatch(int key, Args & c, std::false_type, bool) { LiveKey lk(&key); d.dispatch(key, c.a, c.s); }
 	void dispatch(int key, const Args & a, bool queued, Args & callerAfter) override {
 		callerAfter = a;
 		doDispatch(key, callerAfter, std::integral_constant<bool, IsQueue>(), queued);
@@ -379,6 +385,7 @@ struct Interp
 		v.fail(rule, dom(), msg + " | log: " + s, knownCfg ? "filter.plainmixin.front" : "");
 	}
 	bool knownCfg = false;
+	bool callerKeyClobbered = false;
 	static std::string show(const Args & a) { return "(" + std::to_string(a.a) + ", \"" + a.s + "\")"; }
 
 	bool filterVerdict(const FilterSpec & f, const Args & a) {
@@ -592,7 +599,11 @@ void Lst::operator() (Ev & e) const
 	}
 }
 
-bool onFilter(int id, int & a, std::string & s, bool w) { return g_f ? g_f->filterCall(id, a, s, w) : true; }
+bool onFilter(int id, int & a, std::string & s, bool w)
+{
+	if(g_liveKey && (id & 1) && (*g_liveKey == 0 || *g_liveKey == 1)) { *g_liveKey = 1 - *g_liveKey; if(g_f) g_f->callerKeyClobbered = true; }
+	return g_f ? g_f->filterCall(id, a, s, w) : true;
+}
 void onListener(int id, int a, const std::string & s, int via) { if(g_f) g_f->listenerCall(id, a, s, via); }
 bool onCondition(int id, int a, const std::string & s) { return g_f ? g_f->conditionCall(id, a, s) : false; }
 
@@ -649,6 +660,7 @@ Verdict run(const Program & p, const std::string & prop)
 		cls(in.adapterUsed, "argument_adapter_listener");
 		cls(in.stoppedByPolicy, "stopped_by_canContinueInvoking");
 		cls(in.firstListenerFromFilter, "filter_registered_the_first_listener_of_the_dispatched_event");
+		cls(in.callerKeyClobbered, "filter_overwrote_the_callers_event_object_during_direct_dispatch");
 		if(prop == "C04") v.nontrivial = in.twoFilters && in.direct;
 		else if(prop == "C05") v.nontrivial = in.twoFilters && in.queued;
 		else v.nontrivial = (in.twoFilters && in.rewriteThenBlock) || in.stoppedByPolicy || in.adapterUsed;
